@@ -73,7 +73,7 @@ def run(ctx):
     kinds = {"E": 0, "C": 0}
     outcomes = {}
     stats = {"decoder_agrees_with_model": 0, "cli_roundtrip_ok": 0, "cli_export_fails_as_expected": 0,
-             "cli_known_toml_number": 0, "cli_invocations": 0}
+             "cli_known_toml_number": 0, "cli_invocations": 0, "cli_inconclusive_timeout": 0}
     known = {}
     distinct = set()
     nontrivial = 0
@@ -110,7 +110,7 @@ def run(ctx):
             stats["decoder_agrees_with_model"] += 1
             if i == "panic":
                 parts = c.split(" | ")
-                note("toml.Decoder panics (nil pointer dereference / slice bounds): findArrayPrefix returns a pointer into "
+                note("C12-toml-decoder-panic: toml.Decoder panics (nil pointer dereference / slice bounds): findArrayPrefix returns a pointer into "
                      "openTableArrays and then deletes from that slice (theorem C12_decoder_panics_refuted)",
                      {"toml": bytes.fromhex(parts[2]).decode("utf-8", "replace")[:200] if len(parts) > 2 and parts[2] != "-" else ""})
             if len(samples) < 3 and kinds["E"] % 1999 == 7:
@@ -121,6 +121,10 @@ def run(ctx):
                 nontrivial += 1
             stats["cli_invocations"] += 1 + sum(1 for x in ("direct", "import", "reexport") if x in iw)
             wide = cw.get("wide") == "1"
+            if "rc98" in i:
+                # a cue process was killed by the harness time limit twice (overloaded machine): no verdict
+                stats["cli_inconclusive_timeout"] += 1
+                continue
             if iw["want"] == "fail":
                 if iw["export"] == "rc0":
                     violation("export-succeeds-on-bad-input", c, i, m,
@@ -137,7 +141,7 @@ def run(ctx):
                     # an error instead of a silent change: what the property asks for
                     pass
                 else:
-                    note("cue export --out toml silently changes numbers TOML cannot hold: integers outside int64 "
+                    note("C12-toml-export-bigint: cue export --out toml silently changes numbers TOML cannot hold: integers outside int64 "
                          "(and -9223372036854775808 itself) are written as quoted strings, floats are rounded to float64",
                          {"cue": "x: -9223372036854775808", "toml": "x = '-9223372036854775808'"})
             else:
@@ -146,6 +150,9 @@ def run(ctx):
                           "does not reproduce the data" % (cw["fmt"], cw["mode"], ", -e" if cw.get("expr") == "1" else ""))
             if len(samples) < 6 and kinds["C"] % 41 == 3:
                 samples.append({"case": c[:300], "impl": i[:300]})
+    if stats["cli_inconclusive_timeout"] * 4 > max(1, kinds.get("C", 0)):
+        raise vlib.CheckFailure("%d of %d CLI cases were killed by the time limit: the CLI loop was not run" % (
+            stats["cli_inconclusive_timeout"], kinds.get("C", 0)))
     for key in sorted(known):
         ctx.known_finding("%s [%d cases, e.g. %s]" % (key, known[key]["count"], json.dumps(known[key]["witness"], ensure_ascii=True)[:240]))
     if not samples and cases:
